@@ -703,7 +703,8 @@ pub fn c02() -> Simple {
 /// and compares with the simulated run (rule `tcp-differs`, see tcpdiff.rs): the TCP entry
 /// point is the one piece of the library the simulated transport cannot be plugged into.
 pub fn tcp_share(plan: &Plan, job: u64, ctx: &mut JobCtx<'_>) {
-    if job % 300 != 123 {
+    // (at most 3000 per batch: every differential costs two ephemeral ports for a minute)
+    if job % 300 != 123 || job > 900_000 {
         return;
     }
     tcp_always(plan, ctx)
